@@ -306,7 +306,7 @@ def splice_body(body: str, spec: FnSpec, n_loops: int, key: str) -> str:
             txt = "ensures false" if m.group(2) == "diverge" else ""
         return f"{m.group(1)} {txt.strip()} {{" if txt.strip() else f"{m.group(1)} {{"
     body = re.sub(r"(\|[^|]*\|)\s*\{\s*__vx_(diverge|closure)!\((\d+)\);", clos, body)
-    if "__vx_" in body:
+    if re.search(r"__vx_\w+!", body):   # marker macros only; `__vx_a<k>` are the translator's hoisted-argument locals (T1)
         raise Undecided(f"{key}: unreplaced marker")
     # proof insertions
     if spec:
